@@ -1,7 +1,7 @@
-(* C05 — Move, copy and recursive remove never destroy unrelated data (reference semantics and MemoryFS model: move, copy, removetree, movedir onto a fresh destination; directory merges are covered by the correspondence run only). *)
+(* C05 — Move, copy and recursive remove never destroy unrelated data (reference semantics and MemoryFS model: move, copy, removetree, movedir onto a fresh destination; copydir and movedir with directory merges - success or failure - in every non-degenerate case, on NUL-free states). *)
 From Coq Require Import List NArith ZArith Bool Arith.
 From PyFS Require Import Base.PyStr Base.Outcome Path.PathModel Path.PathSpec FS.Tree FS.Monad FS.Mode FS.Base
-     FS.Mem FS.Ops FS.Ref FS.Agree FS.Props FS.Wf FS.PropsProofs.
+     FS.Mem FS.Ops FS.Ref FS.Agree FS.Props FS.Wf FS.PropsProofs FS.RefineWalkLemmasBfs FS.RefineWalkPreserved.
 Import ListNotations.
 
 Theorem C05_ref_preserved_move_copy_removetree : forall o t t',
@@ -35,3 +35,28 @@ Theorem C05_mem_preserved_movedir_fresh : forall src dst create pt s cs cd,
             (is_ok (snd (mem_run (OMovedir src dst create pt) s))) = true.
 Proof. exact mem_preserved_movedir_fresh. Qed.
 Print Assumptions C05_mem_preserved_movedir_fresh.
+
+(* ---- directory transfers incl. merges, whatever the outcome ---- *)
+Theorem C05_mem_preserved_copydir :
+  forall (src dst : str) (create pt : bool) (s : node) (a b : list str),
+       wf s ->
+       nn s ->
+       rpath src = inl a ->
+       rpath dst = inl b ->
+       list_prefix b a = false ->
+       preserved s (fst (mem_run (OCopydir src dst create pt) s)) (OCopydir src dst create pt)
+         (is_ok (snd (mem_run (OCopydir src dst create pt) s))) = true.
+Proof. exact @mem_preserved_copydir. Qed.
+Print Assumptions C05_mem_preserved_copydir.
+
+Theorem C05_mem_preserved_movedir :
+  forall (src dst : str) (create pt : bool) (s : node) (a b : list str),
+       wf s ->
+       nn s ->
+       rpath src = inl a ->
+       rpath dst = inl b ->
+       list_prefix b a = false ->
+       preserved s (fst (mem_run (OMovedir src dst create pt) s)) (OMovedir src dst create pt)
+         (is_ok (snd (mem_run (OMovedir src dst create pt) s))) = true.
+Proof. exact @mem_preserved_movedir. Qed.
+Print Assumptions C05_mem_preserved_movedir.
